@@ -37,7 +37,7 @@ Definition ext (X : list Z) (j' j : istream) : Prop :=
   wstream j' /\ wstream j /\ s_data j = s_data j' ++ X /\ s_pos j = s_pos j' /\ s_size j = s_size j' + zlen X /\
   s_good j = s_good j' /\ s_eof j = s_eof j'.
 
-Lemma data_len i : wstream i -> zlen (s_data i) = s_size i.
+Lemma ws_data_len i : wstream i -> zlen (s_data i) = s_size i.
 Proof. intros (H1 & H2 & H3 & H4 & H5). unfold s_data. rewrite rev_append_rev, zlen_app, zlen_rev. lia. Qed.
 
 (* a read that the cut stream can serve completely: same bytes, still related *)
@@ -53,7 +53,7 @@ Proof.
   { unfold rd_len, rd_short in *. rewrite Hs. destruct ((n <=? 0) || (s_pos j' <? 0)) eqn:E0; [destruct W' as (_ & _ & _ & _ & X5); lia|lia]. }
   split.
   - rewrite (got_spec n j W) by lia. rewrite (got_spec n j' W' Hp). rewrite HL, P, D.
-    apply read_prefix; [lia|lia|]. rewrite (data_len j' W'). lia.
+    apply read_prefix; [lia|lia|]. rewrite (ws_data_len j' W'). lia.
   - pose proof (ws_read n j' W') as R'. pose proof (ws_read n j W) as R.
     pose proof (s_read_data n j') as D'. pose proof (s_read_data n j) as D2.
     destruct (s_read n j') as [g' k']. destruct (s_read n j) as [g k]. cbn [snd] in *.
@@ -62,3 +62,257 @@ Proof.
     split; [rewrite A3, B3, HL, P; reflexivity|]. split; [rewrite A2, B2; exact S|].
     split; [rewrite A5, B5, Hs, Hs2, G; reflexivity|rewrite A6, B6, Hs, Hs2, E; reflexivity].
 Qed.
+
+(* ================= Part 2: a stream that has hit its end stays dead; simulation of a cut stream by the complete one ============ *)
+Ltac errne H := cbn [bind]; let E := fresh in intros E; apply H; injection E as ->; reflexivity.
+
+(* at the end, with the failure recorded *)
+Definition dead (i : istream) : Prop := wstream i /\ 0 <= s_pos i /\ s_pos i = s_size i /\ s_good i = false.
+
+Lemma read_nonpos n i : wstream i -> n <= 0 ->
+  let '(got, i') := s_read n i in
+  got = [] /\ wstream i' /\ s_pos i' = s_pos i /\ s_size i' = s_size i /\ s_good i' = s_good i /\ s_eof i' = s_eof i.
+Proof.
+  intros W Hn. pose proof (ws_read n i W) as R. destruct (s_read n i) as [got i']. destruct R as (A & B & C & D & E & F).
+  assert (Hle : s_pos i <= s_size i) by (destruct W as (_ & _ & _ & _ & X); exact X).
+  assert (Hs : rd_short i n = false) by (unfold rd_short; lia).
+  assert (HL : rd_len i n = 0).
+  { unfold rd_len. fold (rd_short i n). rewrite Hs. replace (n <=? 0) with true by lia. reflexivity. }
+  rewrite Hs in E, F. cbn [negb andb] in E, F. replace (n <=? 0) with true in E, F by lia.
+  split; [destruct got; [reflexivity|unfold zlen in D; cbn in D; lia]|]. split; [exact A|]. split; [lia|]. split; [exact B|]. split; assumption.
+Qed.
+
+Lemma short_read_dead n i : wstream i -> 0 <= s_pos i -> rd_short i n = true ->
+  dead (snd (s_read n i)) /\ s_eof (snd (s_read n i)) = true.
+Proof.
+  intros W Hp Hs. pose proof (ws_read n i W) as R. destruct (s_read n i) as [got i']. destruct R as (A & B & C & D & E & F). cbn [snd].
+  assert (Hle : s_pos i <= s_size i) by (destruct W as (_ & _ & _ & _ & X); exact X).
+  rewrite Hs in E, F. cbn [negb andb] in E, F.
+  assert (HL : s_pos i + rd_len i n = s_size i) by (apply rd_short_end; assumption).
+  split; [|exact F]. split; [exact A|]. split; [pose proof (rd_len_nonneg i n); lia|]. split; [lia|exact E].
+Qed.
+
+Lemma dead_read n i : dead i -> dead (snd (s_read n i)).
+Proof.
+  intros (W & Hp & He & Hg).
+  destruct (Z_le_gt_dec n 0) as [Hn|Hn].
+  - pose proof (read_nonpos n i W Hn) as R. destruct (s_read n i) as [got i']. destruct R as (_ & A & B & C & D & _). cbn [snd].
+    split; [exact A|]. split; [lia|]. split; [lia|]. rewrite D. exact Hg.
+  - apply short_read_dead; [exact W|exact Hp|unfold rd_short; lia].
+Qed.
+
+Lemma dead_seek off i : 0 <= off -> dead i -> dead (s_seek off i).
+Proof.
+  intros Ho (W & Hp & He & Hg). destruct (ws_seek off i W) as (A & B & C & D & _).
+  split; [exact A|]. split; [lia|]. split; [lia|]. rewrite D. exact Hg.
+Qed.
+
+Section Dead.
+Variable cs : classes.
+Variable call : target -> mid -> state -> res (Z * ity).
+Variable sp : scan_params.
+Variable cap : Z.
+Hypothesis Hsig : sp_sig sp <> 0.
+
+(* once a read has hit the end, no forward-seeking read program brings the stream back to good *)
+Lemma dead_stays : forall p s l i s' i', seeks_ok cs p = true -> dead i ->
+  run_r cs call sp cap p s l i = Ok (s', i') -> dead i'.
+Proof.
+  induction p as [| e | | | f k IH | f k IH | f e k IH | f e k IH | f e k IH | e k IH | e k IH | f e k IH | x t e k IH | x e k IH | k IH | c a IHa b IHb];
+    intros s l i s' i' Hs Hd H; cbn [run_r] in H; cbn [seeks_ok] in Hs; try discriminate.
+  - inversion H; subst. exact Hd.
+  - destruct (find_field cs f) as [x|]; [|discriminate]. destruct (ksize (f_kind x)) as [w|]; [|discriminate].
+    pose proof (dead_read w i Hd) as D1. destruct (s_read w i) as [got i1]. cbn [snd] in D1.
+    destruct (read_into x (s f) got) as [v|]; cbn [bind] in H; [|discriminate]. eapply IH; eauto.
+  - destruct (eval_as cs call I64 s l e) as [n|]; cbn [bind] in H; [|discriminate].
+    destruct (s f) as [|b|]; try discriminate.
+    pose proof (dead_read n i Hd) as D1. destruct (s_read n i) as [got i1]. cbn [snd] in D1.
+    destruct (zlen b <? zlen got); [discriminate|]. eapply IH; eauto.
+  - destruct (eval_as cs call U64 s l e) as [n|]; cbn [bind] in H; [|discriminate].
+    destruct (find_field cs f) as [x|]; [|discriminate]. destruct (s f) as [|b|]; try discriminate.
+    destruct (cap <? n * kelt (f_kind x)); [discriminate|]. eapply IH; eauto.
+  - apply andb_prop in Hs. destruct Hs as [Hs1 Hs2].
+    destruct (eval_as cs call I64 s l e) as [off|] eqn:Eo; cbn [bind] in H; [|discriminate].
+    pose proof (seek_ok_nonneg cs call e s l off Hs1 Eo) as Hoff.
+    eapply IH; [exact Hs2|apply dead_seek; [exact Hoff|exact Hd]|exact H].
+  - destruct (find_field cs f) as [x|]; [|discriminate]. destruct (f_kind x) as [t| |]; try discriminate.
+    destruct (eval_as cs call t s l e) as [v|]; cbn [bind] in H; [|discriminate]. eapply IH; eauto.
+  - destruct (eval_as cs call t s l e) as [v|]; cbn [bind] in H; [|discriminate]. eapply IH; eauto.
+  - destruct (l x) as [[? t]|]; [|discriminate].
+    destruct (eval_as cs call t s l e) as [v|]; cbn [bind] in H; [|discriminate]. eapply IH; eauto.
+  - (* the search: the first read delivers nothing, the failure stops it *)
+    exfalso. cbn [scan_loop] in H.
+    destruct Hd as (W & Hp & He & Hg).
+    assert (Hsh : rd_short i 4 = true) by (unfold rd_short; lia).
+    pose proof (ws_read 4 i W) as R. destruct (s_read 4 i) as [got i1]. destruct R as (A & B & C & D & E & F).
+    rewrite Hsh in E, F. cbn [negb andb] in E, F.
+    assert (HL : rd_len i 4 = 0).
+    { pose proof (rd_short_end i 4 W Hp Hsh). pose proof (rd_len_nonneg i 4). lia. }
+    assert (got = []) by (destruct got; [reflexivity|unfold zlen in D; cbn in D; lia]). subst got.
+    change (merge_scalar 4 0 []) with 0 in H. replace (0 =? sp_sig sp) with false in H by lia.
+    unfold scan_stop in H. rewrite E, F in H. destruct (sp_stop_on_fail sp); discriminate.
+  - apply andb_prop in Hs. destruct Hs as [Hs1 Hs2].
+    destruct (eval cs call s l c) as [v|]; cbn [bind] in H; [|discriminate].
+    destruct (fst v =? 0); [eapply IHb|eapply IHa]; eauto.
+Qed.
+End Dead.
+
+(* the cut stream sits at its end (a forward seek was clamped there); the complete stream is at or behind that point *)
+Definition atend (X : list Z) (j' j : istream) : Prop :=
+  wstream j' /\ wstream j /\ s_data j = s_data j' ++ X /\ s_size j = s_size j' + zlen X /\
+  s_pos j' = s_size j' /\ s_size j' <= s_pos j /\ s_good j = s_good j' /\ s_eof j = s_eof j'.
+
+Definition Sim (X : list Z) (j' j : istream) : Prop := 0 <= s_pos j' /\ (ext X j' j \/ atend X j' j).
+
+Lemma Sim_wstream X j' j : Sim X j' j -> wstream j' /\ wstream j.
+Proof. intros [_ [E|A]]; [destruct E as (A & B & _)|destruct A as (A & B & _)]; split; assumption. Qed.
+
+Lemma sim_read X n j' j : Sim X j' j -> rd_short j' n = false ->
+  fst (s_read n j) = fst (s_read n j') /\ Sim X (snd (s_read n j')) (snd (s_read n j)).
+Proof.
+  intros [Hp [E|A]] Hs.
+  - destruct (ext_read X n j' j E Hp Hs) as (A & B & C). split; [exact A|]. split; [exact C|left; exact B].
+  - destruct A as (W' & W & D & S & Pe & Pj & G & Ee).
+    assert (Hn : n <= 0) by (unfold rd_short in Hs; lia).
+    pose proof (read_nonpos n j' W' Hn) as R'. pose proof (read_nonpos n j W Hn) as R.
+    pose proof (s_read_data n j') as D'. pose proof (s_read_data n j) as D2.
+    destruct (s_read n j') as [g' k']. destruct (s_read n j) as [g k]. cbn [fst snd] in *.
+    destruct R' as (A1 & A2 & A3 & A4 & A5 & A6). destruct R as (B1 & B2 & B3 & B4 & B5 & B6).
+    split; [congruence|]. split; [lia|]. right. unfold atend.
+    split; [exact A2|]. split; [exact B2|]. split; [rewrite D2, D', D; reflexivity|]. split; [lia|]. split; [lia|]. split; [lia|].
+    split; congruence.
+Qed.
+
+Lemma sim_seek X off j' j : 0 <= off -> Sim X j' j -> Sim X (s_seek off j') (s_seek off j).
+Proof.
+  intros Ho [Hp S]. pose proof (zlen_nonneg X) as HX.
+  assert (WW : wstream j' /\ wstream j) by (apply (Sim_wstream X); split; assumption). destruct WW as [W' W].
+  destruct (ws_seek off j' W') as (A1 & A2 & A3 & A4 & A5). destruct (ws_seek off j W) as (B1 & B2 & B3 & B4 & B5).
+  pose proof (s_seek_data off j') as D'. pose proof (s_seek_data off j) as D2.
+  assert (Hle' : s_pos j' <= s_size j') by (destruct W' as (_ & _ & _ & _ & X5); exact X5).
+  assert (Hle : s_pos j <= s_size j) by (destruct W as (_ & _ & _ & _ & X5); exact X5).
+  split; [lia|].
+  destruct S as [(_ & _ & D & P & Sz & G & E)|(_ & _ & D & Sz & Pe & Pj & G & E)].
+  - destruct (Z_le_gt_dec (s_pos j' + off) (s_size j')) as [Hin|Hout].
+    + left. unfold ext. split; [exact A1|]. split; [exact B1|]. split; [rewrite D2, D', D; reflexivity|]. split; [lia|]. split; [lia|]. split; congruence.
+    + right. unfold atend. split; [exact A1|]. split; [exact B1|]. split; [rewrite D2, D', D; reflexivity|]. split; [lia|]. split; [lia|]. split; [lia|]. split; congruence.
+  - right. unfold atend. split; [exact A1|]. split; [exact B1|]. split; [rewrite D2, D', D; reflexivity|]. split; [lia|]. split; [lia|]. split; [lia|]. split; congruence.
+Qed.
+
+(* a read of at least one byte that the cut stream can serve: the two streams are at the same position afterwards *)
+Lemma sim_read_pos X n j' j : Sim X j' j -> rd_short j' n = false -> 0 < n ->
+  fst (s_read n j) = fst (s_read n j') /\ ext X (snd (s_read n j')) (snd (s_read n j)) /\
+  s_pos (snd (s_read n j')) = s_pos j' + n.
+Proof.
+  intros [Hp [E|A]] Hs Hn.
+  - destruct (ext_read X n j' j E Hp Hs) as (A & B & C). split; [exact A|]. split; [exact B|].
+    destruct E as (W' & _). pose proof (ws_read n j' W') as R. destruct (s_read n j') as [g' k']. destruct R as (_ & _ & R3 & _). cbn [snd].
+    rewrite R3. rewrite rd_full; [reflexivity|exact Hp|exact Hn|exact Hs].
+  - exfalso. destruct A as (W' & _ & _ & _ & Pe & _). unfold rd_short in Hs. lia.
+Qed.
+
+Lemma ext_seek_back X off j' j : ext X j' j -> off <= 0 -> 0 <= s_pos j' + off ->
+  ext X (s_seek off j') (s_seek off j).
+Proof.
+  intros (W' & W & D & P & Sz & G & E) Ho Hp. pose proof (zlen_nonneg X) as HX.
+  destruct (ws_seek off j' W') as (A1 & A2 & A3 & A4 & A5). destruct (ws_seek off j W) as (B1 & B2 & B3 & B4 & B5).
+  pose proof (s_seek_data off j') as D'. pose proof (s_seek_data off j) as D2.
+  assert (Hle' : s_pos j' <= s_size j') by (destruct W' as (_ & _ & _ & _ & X5); exact X5).
+  unfold ext. split; [exact A1|]. split; [exact B1|]. split; [rewrite D2, D', D; reflexivity|]. split; [lia|]. split; [lia|]. split; congruence.
+Qed.
+
+Lemma scan_fuel_mono sp : forall n m tmp i r, scan_loop sp n tmp i = Ok r -> (n <= m)%nat -> scan_loop sp m tmp i = Ok r.
+Proof.
+  induction n as [|n IH]; intros m tmp i r H Hm; [discriminate|]. destruct m as [|m]; [lia|].
+  cbn [scan_loop] in *. destruct (s_read 4 i) as [got i1]. destruct (_ =? sp_sig sp); [exact H|].
+  destruct (scan_stop sp i1); [discriminate|]. apply IH; [exact H|lia].
+Qed.
+
+Section SimRun.
+Variable cs : classes.
+Variable call : target -> mid -> state -> res (Z * ity).
+Variable sp : scan_params.
+Variable cap : Z.
+Hypothesis HR : rules_ok sp = true.
+Hypothesis Hsig : sp_sig sp <> 0.
+Variable X : list Z.
+
+(* the search on the cut stream: either a read hit the end (the stream is dead), or the complete stream gives the same *)
+Lemma scan_sim : forall n tmp j' j r j1', Sim X j' j -> scan_loop sp n tmp j' = Ok (r, j1') ->
+  dead j1' \/ exists j1, scan_loop sp n tmp j = Ok (r, j1) /\ Sim X j1' j1.
+Proof.
+  induction n as [|n IH]; intros tmp j' j r j1' S H; [discriminate|].
+  cbn [scan_loop] in *.
+  assert (WW : wstream j' /\ wstream j) by (apply (Sim_wstream X); exact S). destruct WW as [W' W].
+  destruct (rd_short j' 4) eqn:Sh.
+  - (* the cut stream cannot serve 4 bytes: whatever happens next, it is dead *)
+    pose proof (short_read_dead 4 j' W' (proj1 S) Sh) as [Dd De]. destruct (s_read 4 j') as [got' k']. cbn [snd] in Dd, De.
+    destruct (_ =? sp_sig sp); [inversion H; subst; left; exact Dd|].
+    exfalso. unfold scan_stop in H. destruct Dd as (Wk & _ & _ & Gk). rewrite Gk, De in H. destruct (sp_stop_on_fail sp); discriminate.
+  - assert (H4 : 0 < 4) by lia.
+    destruct (sim_read_pos X 4 j' j S Sh H4) as (Eg & E1 & P1).
+    destruct (s_read 4 j') as [got' k']. destruct (s_read 4 j) as [got k]. cbn [fst snd] in *. subst got.
+    destruct (merge_scalar 4 tmp got' =? sp_sig sp).
+    + inversion H; subst. right. exists k. split; [reflexivity|]. split; [destruct S; lia|left; exact E1].
+    + assert (Est : scan_stop sp k = scan_stop sp k').
+      { unfold scan_stop. destruct E1 as (_ & _ & _ & _ & _ & G & E). rewrite G, E. reflexivity. }
+      rewrite Est. destruct (scan_stop sp k'); [discriminate|].
+      pose proof (scan_rule_range sp (merge_scalar 4 tmp got') HR) as Rk. set (kk := scan_rule (sp_rules sp) (merge_scalar 4 tmp got')) in *.
+      assert (Hp0 : 0 <= s_pos j') by (destruct S; assumption).
+      destruct (kk =? 0).
+      * apply (IH _ k' k); [split; [lia|left; exact E1]|exact H].
+      * apply (IH _ (s_seek kk k') (s_seek kk k)); [|exact H]. pose proof (ext_seek_back X kk k' k E1) as E2.
+        assert (E3 : ext X (s_seek kk k') (s_seek kk k)) by (apply E2; lia).
+        split; [|left; exact E3]. destruct E3 as (W3 & _). destruct E1 as (W1 & _).
+        destruct (ws_seek kk k' W1) as (_ & _ & P3 & _). rewrite P3. destruct W1 as (_ & _ & _ & _ & X5). lia.
+Qed.
+
+(* a forward-seeking read program on the cut stream: if the stream is still good at the end, every read was served, and the
+   complete stream gives the same object *)
+Theorem run_r_sim : forall p s l j' j s' j2', seeks_ok cs p = true -> Sim X j' j ->
+  run_r cs call sp cap p s l j' = Ok (s', j2') -> s_good j2' = true ->
+  exists j2, run_r cs call sp cap p s l j = Ok (s', j2) /\ Sim X j2' j2.
+Proof.
+  induction p as [| e | | | f k IH | f k IH | f e k IH | f e k IH | f e k IH | e k IH | e k IH | f e k IH | x t e k IH | x e k IH | k IH | c a IHa b IHb];
+    intros s l j' j s' j2' Hs HS H Hg; cbn [run_r] in H |- *; cbn [seeks_ok] in Hs; try discriminate.
+  - inversion H; subst. exists j. split; [reflexivity|exact HS].
+  - destruct (find_field cs f) as [x|]; [|discriminate]. destruct (ksize (f_kind x)) as [w|]; [|discriminate].
+    assert (WW : wstream j' /\ wstream j) by (apply (Sim_wstream X); exact HS). destruct WW as [W' W].
+    destruct (rd_short j' w) eqn:Sh.
+    + exfalso. pose proof (short_read_dead w j' W' (proj1 HS) Sh) as [Dd _]. destruct (s_read w j') as [got' k']. cbn [snd] in Dd.
+      destruct (read_into x (s f) got') as [v|]; cbn [bind] in H; [|discriminate].
+      destruct (dead_stays cs call sp cap Hsig _ _ _ _ _ _ Hs Dd H) as (_ & _ & _ & G). congruence.
+    + destruct (sim_read X w j' j HS Sh) as [Eg S1]. destruct (s_read w j') as [got' k']. destruct (s_read w j) as [got k0]. cbn [fst snd] in *. subst got.
+      destruct (read_into x (s f) got') as [v|]; cbn [bind] in H |- *; [|discriminate]. eapply IH; eauto.
+  - destruct (eval_as cs call I64 s l e) as [n|]; cbn [bind] in H |- *; [|discriminate].
+    destruct (s f) as [|b|]; try discriminate.
+    assert (WW : wstream j' /\ wstream j) by (apply (Sim_wstream X); exact HS). destruct WW as [W' W].
+    destruct (rd_short j' n) eqn:Sh.
+    + exfalso. pose proof (short_read_dead n j' W' (proj1 HS) Sh) as [Dd _]. destruct (s_read n j') as [got' k']. cbn [snd] in Dd.
+      destruct (zlen b <? zlen got'); [discriminate|].
+      destruct (dead_stays cs call sp cap Hsig _ _ _ _ _ _ Hs Dd H) as (_ & _ & _ & G). congruence.
+    + destruct (sim_read X n j' j HS Sh) as [Eg S1]. destruct (s_read n j') as [got' k']. destruct (s_read n j) as [got k0]. cbn [fst snd] in *. subst got.
+      destruct (zlen b <? zlen got'); [discriminate|]. eapply IH; eauto.
+  - destruct (eval_as cs call U64 s l e) as [n|]; cbn [bind] in H |- *; [|discriminate].
+    destruct (find_field cs f) as [x|]; [|discriminate]. destruct (s f) as [|b|]; try discriminate.
+    destruct (cap <? n * kelt (f_kind x)); [discriminate|]. eapply IH; eauto.
+  - apply andb_prop in Hs. destruct Hs as [Hs1 Hs2].
+    destruct (eval_as cs call I64 s l e) as [off|] eqn:Eo; cbn [bind] in H |- *; [|discriminate].
+    pose proof (seek_ok_nonneg cs call e s l off Hs1 Eo) as Hoff.
+    eapply IH; [exact Hs2|apply sim_seek; [exact Hoff|exact HS]|exact H|exact Hg].
+  - destruct (find_field cs f) as [x|]; [|discriminate]. destruct (f_kind x) as [t| |]; try discriminate.
+    destruct (eval_as cs call t s l e) as [v|]; cbn [bind] in H |- *; [|discriminate]. eapply IH; eauto.
+  - destruct (eval_as cs call t s l e) as [v|]; cbn [bind] in H |- *; [|discriminate]. eapply IH; eauto.
+  - destruct (l x) as [[? t]|]; [|discriminate].
+    destruct (eval_as cs call t s l e) as [v|]; cbn [bind] in H |- *; [|discriminate]. eapply IH; eauto.
+  - destruct (scan_loop sp (S (S (length (s_data j')))) 0 j') as [[r k']|] eqn:Es; cbn [bind] in H; [|discriminate]. cbn [fst snd] in H.
+    assert (Hfu : (S (S (length (s_data j'))) <= S (S (length (s_data j))))%nat).
+    { destruct HS as [_ [(_ & _ & D & _)|(_ & _ & D & _)]]; rewrite D, app_length; lia. }
+    destruct (scan_sim _ _ _ _ _ _ HS Es) as [Dd|(k0 & Es2 & S1)].
+    + exfalso. destruct (dead_stays cs call sp cap Hsig _ _ _ _ _ _ Hs Dd H) as (_ & _ & _ & G). congruence.
+    + rewrite (scan_fuel_mono sp _ _ _ _ _ Es2 Hfu). cbn [bind fst snd]. eapply IH; eauto.
+  - apply andb_prop in Hs. destruct Hs as [Hs1 Hs2].
+    destruct (eval cs call s l c) as [v|]; cbn [bind] in H |- *; [|discriminate].
+    destruct (fst v =? 0); [eapply IHb|eapply IHa]; eauto.
+Qed.
+End SimRun.
